@@ -781,6 +781,43 @@ def round15_entries():
     return out
 
 
+def round16_entries():
+    """closing the misses of seed round 16"""
+    out = []
+    # TWO call sites in one function whose inline-assembly callees differ in exactly ONE component (each flag, the assembly string, the constraints, the
+    # type), in both orders: a callee must not be shared with (or taken from) its near twin
+    base = dict(se=True, al=False, it=False, uw=False, asm="nop", con="~{memory}", ty="void")
+    def spell(d):
+        fl = "".join(k + " " for k, on in (("sideeffect", d["se"]), ("alignstack", d["al"]), ("inteldialect", d["it"]), ("unwind", d["uw"])) if on)
+        return 'call %s asm %s"%s", "%s"()' % (d["ty"], fl, d["asm"], d["con"])
+    variants = [("sideeffect", dict(base, se=False)), ("alignstack", dict(base, al=True)), ("inteldialect", dict(base, it=True)), ("unwind", dict(base, uw=True)),
+                ("asm", dict(base, asm="nop2")), ("constraints", dict(base, con="~{dirflag}")), ("type", dict(base, ty="i32", con="=r"))]
+    for name, v in variants:
+        for order in (0, 1):
+            a, b = (base, v) if order == 0 else (v, base)
+            la = ("%x = " if a["ty"] != "void" else "") + spell(a)
+            lb = ("%x = " if b["ty"] != "void" else "") + spell(b)
+            lc = la.replace("%x", "%y")
+            text = "define void @f() {\n\t%s\n\t%s\n\t%s\n\tret void\n}\n" % (la, lb, lc)
+            out.append(("inline-asm-twins.%s.%d" % (name, order), text, ["\t%s\n\t%s\n\t%s\n" % (la, lb, lc)]))
+    # the same at an invoke and a callbr next to a call
+    out.append(("inline-asm-twins.invoke-callbr", 'define void @f() personality i8* null {\n\tcall void asm sideeffect "nop", ""()\n\tinvoke void asm sideeffect unwind "nop", ""()\n\t\tto label %a unwind label %b\n\na:\n'
+                '\tcallbr void asm sideeffect alignstack "nop", ""()\n\t\tto label %c []\n\nb:\n\t%l = landingpad i8\n\t\tcleanup\n\tret void\n\nc:\n\tcall void asm sideeffect "nop", ""()\n\tret void\n}\n',
+                ['call void asm sideeffect "nop", ""()', 'invoke void asm sideeffect unwind "nop", ""()', 'callbr void asm sideeffect alignstack "nop", ""()']))
+    # attribute strings whose ONLY byte that needs an escape is a backslash, directly followed by two hexadecimal digits or by another backslash (a printer that
+    # copies "harmless" strings unescaped turns `\5CDe` into the escape `\De`): every site that prints a string attribute, key and value
+    for i, (src, canon) in enumerate((("C:\\5CDev", "C:\\5CDev"), ("a\\5C\\5C41", "a\\5C\\5C41"), ("\\\\00", "\\5C00"), ("x\\5Cff", "x\\5Cff"))):
+        pair, lone = '"k%d"="%s"' % (i, src), '"%s"' % src
+        cpair, clone = '"k%d"="%s"' % (i, canon), '"%s"' % canon
+        key, ckey = '"%s"="v"' % src, '"%s"="v"' % canon
+        text = ("@g = global i32 0 %s\n\ndeclare void @d(i32 %s %%0) %s\n\ndefine void @f() %s %s {\n\tcall void @d(i32 %s 1) %s\n\tret void\n}\n\nattributes #0 = { %s %s }\n"
+                % (pair, lone, key, pair, lone, pair, lone, pair, key))
+        out.append(("attr-string-backslash-hex.%d" % i, text + "\ndefine void @h() #0 {\n\tret void\n}\n",
+                    ["@g = global i32 0 " + cpair, "declare void @d(i32 %s %%0) %s" % (clone, ckey), "define void @f() %s %s {" % (cpair, clone), "call void @d(i32 %s 1) %s" % (cpair, clone),
+                     "attributes #0 = { %s %s }" % (cpair, ckey)]))
+    return out
+
+
 def layout_entries():
     """a value USED in a block that is written BEFORE the block that defines it (legal: the definition dominates through the CFG): the parser types forward
     references from the scaffold it builds in a first pass, so a constant next to such an operand is built at the scaffold's type"""
@@ -888,4 +925,4 @@ def layout_entries():
 
 
 def all_entries(rows):
-    return kw_entries(rows) + STRUCTURED + NAMED_NONSTRUCT + inst_entries() + DI + MISC + comdat_entries() + flag_cross_entries() + addrspace_cross_entries() + written_type_entries() + REPEATS + UINT_LITS + order_entries() + DI_REFS + clausegen.all_entries() + layout_entries() + round13_entries() + round14_entries() + round15_entries()
+    return kw_entries(rows) + STRUCTURED + NAMED_NONSTRUCT + inst_entries() + DI + MISC + comdat_entries() + flag_cross_entries() + addrspace_cross_entries() + written_type_entries() + REPEATS + UINT_LITS + order_entries() + DI_REFS + clausegen.all_entries() + layout_entries() + round13_entries() + round14_entries() + round15_entries() + round16_entries()
